@@ -773,3 +773,166 @@ Proof.
   destruct (cinv_released kl cs C R) as [A1 [A2 [A3 [A4 [A5 [A6 [A7 [A8 [A9 A10]]]]]]]]].
   repeat (split; [assumption|]). intros why. apply c_run_no_escape. destruct (glue_ok_struct gt G) as [_ [_ H]]. exact H.
 Qed.
+
+(* ---------------------------------------------------------------------------------------------- *)
+(** * 5. Faithfulness of the compound wrappers: each is the stated composition of cpp_steps and glue allocation events *)
+
+(* one C++ member call on the object world of a C state *)
+Definition cpp (F : nat -> bool) (cs : cstate) (x : op) : cstate * outcome :=
+  (with_cw cs (fst (cpp_step cfg_fixed F (cw cs) x)), snd (cpp_step cfg_fixed F (cw cs) x)).
+
+(* splinetable_init:  p = new splinetable<>  (bad_alloc: nothing happened), then the default constructor *)
+Definition spec_init (F GF : nat -> bool) (cs : cstate) (k : nat) : cstate * outcome :=
+  match g_new GF cs (p_h k) sz_table with
+  | (None, m') => (with_g cs m' (gs cs), Failed RAlloc)
+  | (Some cs1, _) => cpp F cs1 (ONew k)
+  end.
+(* splinetable_free:  if(table->data){ ~splinetable(); operator delete(storage); table->data = NULL; } *)
+Definition spec_free (F : nat -> bool) (cs : cstate) (k : nat) : cstate :=
+  if live cs k then g_del (fst (cpp F cs (ODestroy k))) (p_h k) sz_table else cs.
+(* readsplinefitstable:  splinetable_free; new; reading constructor; a throwing constructor releases the storage *)
+Definition spec_read (F GF : nat -> bool) (cs : cstate) (k : nat) (f : file) : cstate * outcome :=
+  let cs1 := spec_free F cs k in
+  match g_new GF cs1 (p_h k) sz_table with
+  | (None, m') => (with_g cs1 m' (gs cs1), Failed RAlloc)
+  | (Some cs2, _) =>
+      match cpp F cs2 (ONewRead k f) with
+      | (cs3, Failed r) => (g_del cs3 (p_h k) sz_table, Failed r)
+      | r => r
+      end
+  end.
+(* readsplinefitstable_mem:  if(!table->data) table->data = new splinetable<>();  then read_fits_mem *)
+Definition spec_readmem (F GF : nat -> bool) (cs : cstate) (k : nat) (f : file) : cstate * outcome :=
+  if live cs k then cpp F cs (ORead k f)
+  else match g_new GF cs (p_h k) sz_table with
+       | (None, m') => (with_g cs m' (gs cs), Failed RAlloc)
+       | (Some cs1, _) => cpp F (fst (cpp F cs1 (ONew k))) (ORead k f)
+       end.
+(* writesplinefitstable_mem:  write_fits_mem, whose memory file (malloc) is handed to the caller *)
+Definition spec_writemem (F GF : nat -> bool) (cs : cstate) (k b bytes : nat) (fails : bool) : cstate * outcome :=
+  match cpp F cs (OWrite k fails) with
+  | (cs1, Ok) => match g_new GF cs1 (p_b b) bytes with
+                 | (None, m') => (with_g cs1 m' (gs cs1), Failed RAlloc)
+                 | (Some cs2, _) => (cs2, Ok)
+                 end
+  | r => r
+  end.
+(* splinetable_grideval:  new photospline::ndsparse (object, then ndsparse_allocate; a failure of the second releases
+   the first); the table is only read *)
+Definition spec_grideval (GF : nat -> bool) (cs : cstate) (k r rows : nat) : cstate * outcome :=
+  if Nat.eqb rows 0 then (cs, Failed RInvalid)
+  else match g_new GF cs (p_rs r) sz_nd with
+       | (None, m') => (with_g cs m' (gs cs), Failed RAlloc)
+       | (Some cs1, _) =>
+           match g_new GF cs1 (p_rp r) (nd_bytes (ndim (obj_of cs k)) rows) with
+           | (None, m') => (g_del (with_g cs1 m' (gs cs1)) (p_rs r) sz_nd, Failed RAlloc)
+           | (Some cs2, _) => (cs2, Ok)
+           end
+       end.
+(* ndsparse_destroy:  delete (photospline::ndsparse* )nd  =  ~ndsparse() (ndsparse_free of the arrays), then the object *)
+Definition spec_nddestroy (cs : cstate) (r : nat) : cstate :=
+  if is_null (gget cs (p_rs r)) then cs
+  else g_del (g_del cs (p_rp r) (slot_bytes (gget cs (p_rp r)))) (p_rs r) sz_nd.
+
+Definition compound_spec (F GF : nat -> bool) (cs : cstate) (call : ccall) : option (cstate * outcome) :=
+  let k := c_h call in
+  match c_args call with
+  | AInit => Some (spec_init F GF cs k)
+  | CApiModel.AFree => Some (spec_free F cs k, Ok)
+  | ARead f => Some (spec_read F GF cs k f)
+  | AReadMem f => Some (spec_readmem F GF cs k f)
+  | AWriteMem b bytes fails => Some (spec_writemem F GF cs k b bytes fails)
+  | AGrideval r rows => Some (spec_grideval GF cs k r rows)
+  | ANdDestroy r => Some (spec_nddestroy cs r, Ok)
+  | _ => None
+  end.
+
+Lemma do_free_spec : forall kl F cs k, oinv kl cs -> k < 4 -> do_free cfg_fixed F cs k = (spec_free F cs k, BOk).
+Proof.
+  intros kl F cs k O Hk. unfold do_free, spec_free. destruct (live cs k) eqn:Lv; [|reflexivity].
+  destruct (live_obj kl cs k O Hk Lv) as [o [Eo _]]. rewrite lift_step_eq. unfold cpp, cpp_step.
+  rewrite (step_destroy_some kl F (cw cs) k o (cb_inv _ _ _ O) Eo). reflexivity.
+Qed.
+
+Lemma body_spec : forall kl g F GF cs call sp,
+  ginv cs -> oinv kl cs -> valid_call cs call = true ->
+  (forall f, c_args call = ARead f -> g_free_first g = true) ->
+  (forall r, c_args call = ANdDestroy r -> String.eqb (g_member g) "delete photospline::ndsparse" = true) ->
+  (needs_live (c_args call) = true -> live cs (c_h call) = true) -> doc_pre cs call = true ->
+  compound_spec F GF cs call = Some sp ->
+  body g cfg_fixed F GF cs call = (fst sp, bres_of (snd sp)).
+Proof.
+  intros kl g F GF cs call sp I O V Hff Hty LV P. unfold valid_call in V.
+  apply andb_true_iff in V. destruct V as [V V3]. apply andb_true_iff in V. destruct V as [Vk _].
+  apply Nat.ltb_lt in Vk. unfold compound_spec, doc_pre, body in *.
+  destruct call as [k nl ca]. cbn [c_h c_args] in *. assert (Hk4 : k < 4) by lia.
+  destruct ca as [| |f|fails|key|key parses|inv e|a|inside| | | |dim nk|f|b0 bytes fails|b0|s|r rows|r|p];
+    cbv beta iota zeta in *; cbn [needs_live] in *; intros E; inversion E; subst sp; clear E.
+  - (* AInit *)
+    apply negb_true_iff in V3. pose proof V3 as Hn. rewrite (oinv_link _ _ _ O Hk4) in Hn. apply has_false_none in Hn.
+    assert (Ab : abandon cs k = cs) by (unfold abandon; rewrite Hn; reflexivity). rewrite Ab.
+    unfold spec_init. destruct (g_new GF cs (p_h k) sz_table) as [[cs1|] m']; [|reflexivity].
+    rewrite lift_step_eq. reflexivity.
+  - (* AFree *) apply (do_free_spec kl); assumption.
+  - (* ARead *)
+    rewrite (Hff f eq_refl), (do_free_spec kl F cs k O Hk4). unfold spec_read.
+    destruct (g_new GF (spec_free F cs k) (p_h k) sz_table) as [[cs2|] m']; [|reflexivity].
+    rewrite lift_step_eq. unfold cpp, cpp_step. destruct (step cfg_fixed F (cw cs2) (ONewRead k f)) as [w' o]. destruct o; reflexivity.
+  - (* AReadMem *)
+    unfold spec_readmem. destruct (live cs k) eqn:Lv; [rewrite lift_step_eq; reflexivity|].
+    pose proof Lv as Hn. rewrite (oinv_link _ _ _ O Hk4) in Hn. apply has_false_none in Hn.
+    destruct (g_new GF cs (p_h k) sz_table) as [[cs1|] m'] eqn:G; [|reflexivity].
+    destruct (new_any kl k GF cs (p_h k) sz_table cs1 m' I (oinv_weaken kl k cs O)) as [_ [_ [Ew _]]]; auto.
+    { apply ph_lt; exact Hk4. } { apply live_false_null; exact Lv. } { intros r Hr E. unfold p_h, p_rs in E. lia. }
+    rewrite lift_step_eq. unfold cpp, cpp_step. rewrite Ew.
+    rewrite (step_new_none kl cfg_fixed F (cw cs) k (cb_inv _ _ _ O) Hn). cbn [fst snd bres_of]. rewrite lift_step_eq. reflexivity.
+  - (* AWriteMem *)
+    rewrite lift_step_eq. unfold spec_writemem, cpp, cpp_step.
+    destruct (step cfg_fixed F (cw cs) (OWrite k fails)) as [w' o]. destruct o; cbn [fst snd bres_of]; try reflexivity.
+    destruct (g_new GF (with_cw cs w') (p_b b0) bytes) as [[cs2|] m']; reflexivity.
+  - (* AGrideval *)
+    specialize (LV eq_refl). rewrite LV in P. cbn [negb orb] in P.
+    destruct (live_obj kl cs k O Hk4 LV) as [o [Eo [Eoo Io]]]. unfold populated in P. rewrite Eoo in *.
+    apply negb_true_iff, Nat.eqb_neq in P. rewrite (built_of_inv o Io P), (has_extents_of_inv o Io P). cbn [andb negb].
+    unfold spec_grideval. rewrite Eoo. destruct (Nat.eqb rows 0); [reflexivity|].
+    destruct (g_new GF cs (p_rs r) sz_nd) as [[cs1|] m']; [|reflexivity].
+    destruct (g_new GF cs1 (p_rp r) (nd_bytes (ndim o) rows)) as [[cs2|] m'']; reflexivity.
+  - (* ANdDestroy *)
+    rewrite (Hty r eq_refl). unfold spec_nddestroy. destruct (is_null (gget cs (p_rs r))); reflexivity.
+Qed.
+
+(* the leading check of the wrapper lets the call through *)
+Definition passes (gt : list glue) (cs : cstate) (call : ccall) : bool :=
+  negb (existsb (fun a => inb a (eff_nulls cs call)) (g_checked (glue_of gt (fname (c_args call))))).
+
+Theorem faithful_compound : forall kl gt F GF cs call sp,
+  glue_ok gt = true -> cinv kl cs -> dead cs = false -> valid_call cs call = true -> wf_call kl call ->
+  (needs_live (c_args call) = true -> live cs (c_h call) = true) -> doc_pre cs call = true ->
+  passes gt cs call = true ->
+  compound_spec F GF cs call = Some sp ->
+  c_call gt cfg_fixed F GF cs call = (fst sp, lift (glue_of gt (fname (c_args call))) (snd sp))
+  /\ snd sp <> UB /\ snd sp <> Skipped.
+Proof.
+  intros kl gt F GF cs call sp G [I O] D V W LV P PS CS.
+  destruct (glue_ok_struct gt G) as [H1 [H2 H3]].
+  destruct (eff_nulls_valid cs call V) as [N EN].
+  unfold passes in PS. apply negb_true_iff in PS.
+  unfold c_call. rewrite D, N, existsb_inb_nil, PS. rewrite EN.
+  set (g := glue_of gt (fname (c_args call))).
+  assert (DR : existsb (fun a => inb a (if live cs (c_h call) then [] else ["table->data"%string])) (derefs (c_args call)) = false).
+  { destruct (live cs (c_h call)) eqn:Lv; [apply existsb_inb_nil|].
+    rewrite existsb_single, <- needs_live_derefs. destruct (needs_live (c_args call)); [|reflexivity]. discriminate (LV eq_refl). }
+  rewrite DR.
+  assert (Hff : forall f, c_args call = ARead f -> g_free_first g = true) by (intros f A; unfold g; rewrite A; exact H1).
+  assert (Hty : forall r, c_args call = ANdDestroy r -> String.eqb (g_member g) "delete photospline::ndsparse" = true)
+    by (intros r A; unfold g; rewrite A; exact H2).
+  pose proof (body_spec kl g F GF cs call sp I O V Hff Hty LV P CS) as B.
+  destruct (body_compose kl g F GF cs call _ _ I O V W Hff Hty B) as [_ [_ NB]]. specialize (NB LV P).
+  rewrite B. destruct (snd sp) as [|r| |] eqn:E; cbn [bres_of lift] in *.
+  - split; [reflexivity|split; discriminate].
+  - pose proof (body_throw_may_throw _ _ _ _ _ _ _ _ B) as M.
+    pose proof (protected_all gt H3 (c_args call)) as Pr. unfold glue_protected in Pr. rewrite M in Pr. cbn in Pr.
+    rewrite orb_false_r in Pr. fold g in Pr. rewrite Pr. split; [reflexivity|split; discriminate].
+  - exfalso; apply NB; reflexivity.
+  - exfalso; apply NB; reflexivity.
+Qed.
